@@ -593,6 +593,35 @@ def _r12_6(prog: Program, res: Result) -> None:
                        f"all fields of ast.{kind} are carried over" if not missing else
                        f"field(s) {missing} of ast.{kind} are not carried over into the compiled template: the matcher never compares them, so patterns match nodes "
                        f"that differ there (`def f(x)` matches `def f[T](x)`)")
+    # a visit_K that is an ALIAS of another method (`visit_AsyncFunctionDef = _visit_function_definition`): the shared method must
+    # build the class of the node it was given - a constructor written out for one kind turns every other kind into it
+    # (`async def` patterns compile to plain function templates)
+    for mod in prog.modules.values():
+        if mod.name != "core":
+            continue
+        for cd in ast.walk(mod.tree):
+            if not (isinstance(cd, ast.ClassDef) and any("NodeTransformer" in norm(b) for b in cd.bases)):
+                continue
+            for a in cd.body:
+                if not (isinstance(a, ast.Assign) and isinstance(a.value, ast.Name) and all(isinstance(t, ast.Name) and t.id.startswith("visit_") for t in a.targets)):
+                    continue
+                helper = prog.funcs.get((mod.name, f"{cd.name}.{a.value.id}"))
+                if helper is None:
+                    continue
+                for t in a.targets:
+                    kind = t.id[len("visit_"):]
+                    if not hasattr(ast, kind):
+                        continue
+                    n += 1
+                    built = {norm(c.func) for c in prog.calls_in(helper) if norm(c.func).startswith("ast.") and hasattr(ast, norm(c.func)[4:])
+                             and isinstance(getattr(ast, norm(c.func)[4:]), type) and issubclass(getattr(ast, norm(c.func)[4:]), (ast.stmt, ast.expr))
+                             and any(k.arg in ("body", "name", "args") for k in c.keywords)}
+                    generic = any(isinstance(c.func, ast.Call) and norm(c.func.func) == "type" for c in prog.calls_in(helper))
+                    wrong = sorted(b for b in built if b != f"ast.{kind}")
+                    res.decide(not wrong or (generic and not built), "R12.6", helper.loc(), helper.fq, f"{t.id} = {a.value.id} # node class built by a shared visitor",
+                               f"builds ast.{kind} / the class of the node" if not wrong else
+                               f"the shared visitor builds {wrong[0]} whatever it is given: a pattern containing a {kind} compiles to a {wrong[0][4:]} template, no longer matches "
+                               f"its own text and matches {wrong[0][4:]} nodes instead")
     res.analysed["rebuilt_node_kinds"] = n
 
 
